@@ -983,8 +983,12 @@ impl Prop for C04 {
             if gext != want_ext && !mixed_serial {
                 discs.push(Disc::new(format!("range|ext-flag|ctx={}|type={}|n={}|want={want_ext}|inner={}|except={}", c.ctx, c.ty, c.cons.len(), c.ext_inner, c.cons.iter().any(|e| e.ext && e.ops.contains(&'E'))), format!("extensible flag {gext}, marker present {want_ext}\n{src}\n{gen}")));
             }
-        } else if want_ext && (elo, ehi) != (norm(None), None) {
-            // covered by the bound comparison above
+        } else if want_ext && unsigned && !(c.cons.len() == 2 && c.cons[0].ext != c.cons[1].ext) {
+            // a size constraint whose effective range is the whole of 0..MAX still carries its marker: the
+            // generator writes `size("0..", extensible)` for it, so a missing annotation loses the extension bit
+            // (for INTEGER there is no annotation that could carry the marker of an unbounded constraint)
+            let except = c.cons.iter().any(|e| e.ext && (e.all_except || e.ops.contains(&'E')));
+            discs.push(Disc::new(format!("range|ext-flag|ctx={}|type={}|n={}|want=true|inner={}|unbounded-size-not-annotated|except={except}", c.ctx, c.ty, c.cons.len(), c.ext_inner), format!("extensible size constraint without annotation, marker present\n{src}\n{gen}")));
         }
         CaseResult { discs, nontrivial: true, outcome: format!("ok:{}:{}:n{}", c.ctx, c.ty, c.cons.iter().map(|e| e.operands.len()).sum::<usize>()), skipped: None }
     }
